@@ -408,7 +408,7 @@ class BlackbirdProgram:
                         array_string += "\n    " + "".join("{}, ".format(i) for i in row)[:-2]
                     script.append("{} array {} ={}".format(var_type, k, array_string))
                 else:
-                    script.append("{} array {} =\n{}".format(var_type, k, v))
+                    script.append("{} {} = {}".format(var_type, k, _value_to_blackbird(v)))
 
 
             # line break
